@@ -18,8 +18,25 @@ def regionMem (addr len page : Nat) (kind : String) : TMem :=
       if a < end_ then UInt8.ofNat ((a * 167 + 13) % 256)
       else if kind == "r" then 0x5a else 0 }
 
+/-- several reads of a changing word through one reader: each returns what the target holds at that moment -/
+def runFresh (kv : List (String × String)) : Res := Id.run do
+  let some strat := get kv "strat" | return .bad "strat"
+  let some result := get kv "result" | return .bad "result"
+  let tags := [s!"fresh.{strat}"]
+  if result != "ok" then return .propfail s!"strategy {strat}: a readable word could not be read" tags
+  let some vals := (get kv "vals").bind natList | return .bad "vals"
+  let some after := getNat kv "after" | return .bad "after"
+  -- the counter only grows; the thread runs between the reads (2 ms apart), so equal values mean a stale answer
+  let pairs := vals.zip (vals.drop 1)
+  match pairs.find? (fun (a, b) => b ≤ a) with
+  | some (a, b) => return .propfail s!"strategy {strat}: a later read of the busy thread's counter returned {b} after {a}: not the target's current bytes" tags
+  | none => pure ()
+  if vals.getLast?.getD 0 > after then return .propfail s!"strategy {strat}: returned a value the target never held" tags
+  return .ok tags (some s!"fresh/{strat}/{vals.length}")
+
 def run (kv : List (String × String)) : Res := Id.run do
   if get kv "kind" == some "spawnfail" then return .bad "spawn"
+  if get kv "kind" == some "fresh" then return runFresh kv
   let some strat := get kv "strat" | return .bad "strat"
   let some src := getNat kv "src" | return .bad "src"
   let some n := getNat kv "len" | return .bad "len"
